@@ -209,6 +209,14 @@ static int json_patch_apply_move_copy(struct json_object **res,
 	}
 
 	from_s = json_object_get_string(jfrom);
+	if (from_s == NULL) { // i.e. "from": null
+		_set_err(EINVAL, "Invalid from field");
+		return -1;
+	}
+	if (path == NULL) { // i.e. "path": null
+		_set_err(EINVAL, "Failed to set value at path referenced by 'path' field");
+		return -1;
+	}
 
 	from_s_len = strlen(from_s);
 	if (move && strncmp(from_s, path, from_s_len) == 0 && path[from_s_len] == '/') {
@@ -315,6 +323,10 @@ int json_patch_apply(struct json_object *copy_from, struct json_object *patch,
 			return -1;
 		}
 		op = json_object_get_string(jop);
+		if (op == NULL) { // i.e. "op": null
+			_set_err(EINVAL, "Patch object has invalid 'op' field");
+			return -1;
+		}
 		if (!json_object_object_get_ex(patch_elem, "path", &jpath)) {
 			_set_err(EINVAL, "Patch object does not contain 'path' field");
 			return -1;
